@@ -112,17 +112,20 @@ SPEC = {
         "ASSUMPTIONS": ["lines are abstracted to their version-relevant kind (10 kinds); vlevel >= 1"],
     },
     "C14": {
-        "LEAN": {"modules": ["GfaProofs.Bridge.Seq", "GfaProofs.C14", "GfaProofs.C14Paths", "GfaProofs.C16"],
+        "LEAN": {"modules": ["GfaProofs.Bridge.Seq", "GfaProofs.C14", "GfaProofs.C14Paths", "GfaProofs.C14Cover", "GfaProofs.C16"],
                  "support": ["GfaModel.Seq", "GfaModel.LinearPaths"],
-                 "theorems": ["Gfa.C14.linearPaths_chains", "Gfa.C14.linearPaths_disjoint", "Gfa.C14.linearPath_chain",
+                 "theorems": ["Gfa.C14.linearPaths_cover", "Gfa.C14.linearPaths_maximal", "Gfa.C14.linearPath_closed", "Gfa.C14.traverse_last",
+                              "Gfa.C14.linearPaths_chains", "Gfa.C14.linearPaths_disjoint", "Gfa.C14.linearPath_chain",
                               "Gfa.C14.linearPath_names", "Gfa.C14.traverse_chain", "Gfa.C14.otherEnds_sym", "Gfa.C14.joined_unique",
                               "Gfa.C14.rc_rc", "Gfa.C14.rc_length", "Gfa.C14.rc_append", "Gfa.C14.spell_length", "Gfa.C14.spell_prefix",
                               "Gfa.C14.wcc_involutive_table", "Gfa.Bridge.Seq.wcc_table", "Gfa.Bridge.Seq.wcc_dropped",
                               "Gfa.Bridge.Seq.cut_samples", "Gfa.C16.component_iff_chain"]},
         "ASSUMPTIONS": ["linear_paths/linear_path are modelled statement by statement (GfaModel/LinearPaths.lean) and compared with the library on whole "
                         "graphs (exact order and orientation); proved: every returned path is a chain whose consecutive members are joined by a dovetail "
-                        "that is the only dovetail on both joined ends, has >= 2 members, and no segment occurs twice in or across paths; "
-                        "maximality/completeness of the returned chains is decided by the text-level oracle",
+                        "that is the only dovetail on both joined ends, has >= 2 members, no segment occurs twice in or across paths (linearPaths_chains, "
+                        "linearPaths_disjoint), and no chain is missed or cut short: two different segments so joined are members of one returned path "
+                        "(linearPaths_cover, linearPaths_maximal) - i.e. the returned paths are exactly the maximal chains; a circular single segment "
+                        "(joined to itself) is not a path (x.name != y.name)",
                         "the theorems on the merged segment cover the sequence algebra (reverse complement, spelled length); how the graph is "
                         "rewritten by the merge is decided by the text-level oracle on the real library"],
     },
